@@ -90,6 +90,9 @@ class Monitors:
             if not path.startswith(sim.basestr + "/roots/"):
                 if path.startswith(sim.basestr):
                     self.fail("C06:outside-roots", f"daemon on {host} {op} {path.replace(sim.basestr, '')} — outside every node root (task: {task})")
+                elif what in ("removed", "moved-away", "overwritten", "created") and not path.startswith(("/dev/", "/proc/")):
+                    # anywhere else on the machine (the system temporary directory, ...) is outside every node root as well
+                    self.fail("C06:outside-roots", f"daemon on {host} {op} ({what}) {path} — outside every node root (task: {task})")
                 continue
             node, rel = node_of_path(sim, path)
             if node is None:
